@@ -1663,7 +1663,9 @@ class DeleteMethod(Method):
         unused_href, path, r = app._get_resource_from_environ(request, environ)
         if r is None:
             return _send_not_found(request)
-        container_path, item_name = posixpath.split(path.rstrip("/"))
+        # Split the normalised path: the resource was looked up through the
+        # normalised path too, and "." / ".." are never member names.
+        container_path, item_name = posixpath.split(posixpath.normpath(path))
         pr = app.backend.get_resource(container_path)
         if pr is None:
             return _send_not_found(request)
